@@ -196,6 +196,10 @@ def replay_scenario(failing):
         for w in runloop.check_expectation({'text': inp['text'], 'run': inp.get('run', {}), 'expect': exp}, o):
             print('expectation : ' + w)
             bad.append(w)
+    if not bad and o.get('parse') == 'ok':
+        for w in runloop.check_values_generic(o):
+            print('values      : ' + w)
+            bad.append(w)
     if not bad:
         # the same object run again and again
         again = runloop.rerun_check({'text': inp['text'], 'run': inp.get('run', {})}, o)
